@@ -179,6 +179,10 @@ class ParseMCNPCell:
             material_id = kws['material']
         if kws['density'] is not None:
             density = normalize_float(kws['density'])
+        if int(material_id) == 0:
+            # LIKE n BUT MAT=0: the cell is void, whatever the density of
+            # cell n was
+            density = None
         fillid = self.to_fillid(kws, lat_opt)
         kws['trcl'] = [] if not kws['trcl'] else [kws['trcl']]
 
